@@ -346,10 +346,11 @@ def h_tid_monotonic(c0: int, c1: int, c2: int, c3: int, c4: int, storage: str, r
     reached()
 
 
+from zverif.harness.c05 import h_abort_reader as _abort_reader  # noqa: E402  (loads never return bytes of a transaction that did not commit)
 from zverif.harness.c16 import h_load_before as _demo_load_before  # noqa: E402  (DemoStorage is one of the bundled storages)
 
 _FILE_Q = ['T1', 'T2', 'T4', 'T6']
-_FILE_ALL = ['T1', 'T2', 'T3', 'T4', 'T5', 'T6', 'T10']
+_FILE_ALL = ['T1', 'T2', 'T3', 'T4', 'T5', 'T6', 'T10', 'T3E', 'TBIG']
 
 HARNESSES = [
     Harness('load_before', h_load_before,
@@ -377,7 +378,7 @@ HARNESSES = [
             decides='load/getTid/lastTransaction agree with the newest revision in the history',
             symbolic='oid (shape)', bounds='as load_before', oracle='RevStore.load / last_tid', pure_python=True,
             code=['FileStorage.load', 'getTid', 'lastTransaction', 'MappingStorage.load'],
-            quick=dict(timeout=80, shards=shards(template=['T2', 'T4', 'T5', 'T6'], storage=['file'], reopen=[1], oshape=['mid3'])),
+            quick=dict(timeout=80, shards=shards(template=['T2', 'T4', 'T5', 'T6', 'T3E'], storage=['file'], reopen=[1], oshape=['mid3'])),
             thorough=dict(timeout=600, shards=shards(template=_FILE_ALL, storage=['file'], reopen=[0, 1, 2], oshape=['mid3', 'full'])
                           + shards(template=['T1', 'T2', 'T3'], storage=['mapping'], reopen=[0], oshape=['mid3']))),
     Harness('history', h_history,
@@ -390,7 +391,7 @@ HARNESSES = [
             decides='undoLog(first, last) lists the same transactions and metadata as the history, newest first',
             symbolic='first (0..8), last (-8..8)', bounds='templates per shard', oracle='RevStore.undo_log',
             code=['FileStorage.undoLog', 'UndoSearch'],
-            quick=dict(timeout=80, shards=shards(template=['T3', 'T4'], reopen=[0])),
+            quick=dict(timeout=80, shards=shards(template=['T3', 'T4', 'TBIG'], reopen=[0])),
             thorough=dict(timeout=600, shards=shards(template=_FILE_ALL, reopen=[0, 1]))),
     Harness('iterator', h_iterator,
             decides='iterator(start, stop) yields exactly the transactions in range with their records and metadata',
@@ -398,7 +399,7 @@ HARNESSES = [
             bounds='templates per shard', oracle='RevStore.iterate', pure_python=True,
             code=['FileIterator.__init__', '_skip_to_start', '_scan_forward', '_scan_backward', '__next__',
                   'TransactionRecordIterator.__next__', 'MappingStorage.iterator'],
-            quick=dict(timeout=120, shards=shards(template=['T3', 'T4'], storage=['file'], reopen=[0], use_start=[True], use_stop=[False])
+            quick=dict(timeout=120, shards=shards(template=['T3', 'T4', 'TBIG'], storage=['file'], reopen=[0], use_start=[True], use_stop=[False])
                        + shards(template=['T4'], storage=['file'], reopen=[0], use_start=[False], use_stop=[True])
                        + shards(template=['T2'], storage=['mapping'], reopen=[0], use_start=[False], use_stop=[True])
                        + shards(template=['T2'], storage=['mapping'], reopen=[0], use_start=[True], use_stop=[False])),
@@ -432,6 +433,12 @@ HARNESSES = [
             quick=dict(timeout=150, shards=[dict(base_kind='mapping', changes_kind='file', depth=1)]),
             thorough=dict(timeout=600, shards=[dict(base_kind='mapping', changes_kind='file', depth=1),
                                                dict(base_kind='file', changes_kind='mapping', depth=2)])),
+    Harness('abort_reader', _abort_reader,
+            decides='a load through a pooled, buffered reader handle at any point while a transaction votes and is aborted and the next one '
+                    'commits at the same file position returns the bytes of a committed revision, never those of the aborted one (same harness as C05 / C02)',
+            symbolic='injection point of the load over lock operations, file-system calls and API boundaries', bounds='template T1; 1 injected load',
+            oracle='committed revisions', code=['FileStorage._abort (_files.flush)', 'FilePool', 'FileStorage.load/loadBefore'],
+            quick=dict(timeout=120, shards=shards(template=['T1'])), thorough=dict(timeout=300, shards=shards(template=['T1', 'T2']))),
     Harness('tid_monotonic', h_tid_monotonic,
             decides='transaction ids strictly increase whatever the clock returns (stalls, steps back)',
             symbolic='the clock reading at reopen and 4 consecutive clock readings (free 63-bit integers)',
